@@ -979,6 +979,20 @@ def broach_family(tier, seed):
     ctor = mkfunc("constructor", "Model")
     kwf = mkfunc("linked", "data")                  # __name__ collides with a parameter of the closure
     fact = mkfunc("factory", "factory")
+    # user factories that DO return when called (a counter, a container builder): link_constant(factory=...) /
+    # zero-argument link_function. The generator must emit the call; running them while generating freezes their result
+    stub_calls = []
+
+    def counting_factory():
+        stub_calls.append("counting_factory")
+        return len(stub_calls)
+    tag(counting_factory, "func:counting_factory")
+
+    def container_factory():
+        stub_calls.append("container_factory")
+        return {"a": [1]}
+    tag(container_factory, "func:container_factory")
+    _KEEP.extend([counting_factory, container_factory])
     # depth 1: every leaf alone
     plans += leaves
     # depth 2: field coercions coercer(leaf, ctx)
@@ -986,7 +1000,8 @@ def broach_family(tier, seed):
     lvl2 += [FunctionElement(func=as_is_stub_with_ctx, args=(PositionalArg(l), PositionalArg(ctx))) for l in leaves[:6]]
     lvl2 += [FunctionElement(func=as_is_stub, args=(PositionalArg(leaves[10]),))]
     lvl2 += [FunctionElement(func=fact, args=()), FunctionElement(func=list, args=()), FunctionElement(func=dict, args=()),
-             FunctionElement(func=nn, args=(PositionalArg(data),))]
+             FunctionElement(func=nn, args=(PositionalArg(data),)),
+             FunctionElement(func=counting_factory, args=()), FunctionElement(func=container_factory, args=())]
     plans += lvl2
     # depth 3: constructor calls mixing positional / keyword (incl. python keywords) / unpack
     import random
@@ -1016,9 +1031,10 @@ def broach_family(tier, seed):
     for i, plan in enumerate(plans):
         try:
             gen = BuiltinBroachingCodeGenerator(plan=plan, name_sanitizer=BuiltinNameSanitizer())
+            del stub_calls[:]
             src, ns = gen.produce_code(signature=sig, closure_name="coerce_A_to_B")
             emit({"kind": "broach", "idx": i, "plan": J(plan), "source": src, "origins": take_origins(src),
-                  "namespace": {k: describe(v) for k, v in ns.items()}})
+                  "namespace": {k: describe(v) for k, v in ns.items()}, "user_functions_run": list(stub_calls)})
         except Exception as e:
             emit({"kind": "broach", "idx": i, "plan": J(plan), "error": f"{type(e).__name__}: {e}",
                   "trace": traceback.format_exc()[-500:]})
@@ -1650,7 +1666,7 @@ def describe_callable(v, depth=0):
 GENERIC_PRELUDE = (
     "from dataclasses import dataclass\n"
     "from decimal import Decimal\n"
-    "from typing import Any, Dict, Generic, List, Optional, TypeVar, Union\n"
+    "from typing import Any, Dict, Generic, List, Optional, TypedDict, TypeVar, Union\n"
     "T = TypeVar('T')\nU = TypeVar('U')\nV = TypeVar('V')\n"
     "@dataclass\nclass Book:\n    title: str\n"
     "B = TypeVar('B', bound=Book)\nC = TypeVar('C', str, bytes)\nN = TypeVar('N', bound=int)\n"
@@ -1695,6 +1711,37 @@ def generics_family(tier, seed):
                         "queries": ["B[int]", "B[str]"]},
         "implicit": {"classes": [("A", ["T", "B", "C", "N"], [], {"t": "T", "b": "B", "c": "C", "n": "N"})],
                      "queries": ["A", "A[int, Book, str, bool]"]},
+        # annotations that mention the class variables in another order than Generic[...] declares them
+        "annotation_reorders": {"classes": [("A", ["T", "U"], [], {"fwd": "Dict[T, List[U]]", "bwd": "Dict[U, List[T]]", "ut": "Dict[U, T]"})],
+                                "queries": ["A[int, str]", "A[str, Decimal]", "A[bool, float]"]},
+        "flipped_child": {"classes": [("A", ["T", "U"], [], {"tu": "Dict[T, U]", "ut": "Dict[U, T]"}),
+                                      ("B", ["T", "U"], [("A", ["U", "T"])], {"own": "Dict[U, List[T]]"})],
+                          "queries": ["B[int, str]", "B[Decimal, bool]"]},
+        # a plain (already bound) class next to a subscripted base: its own parent's variables are bound by IT
+        "plain_beside_generic": {"classes": [("A", ["T"], [], {"a": "T", "as_": "List[T]"}),
+                                             ("IntA", [], [("A", ["int"])], {}),
+                                             ("L", ["U"], [], {"l": "U"}),
+                                             ("C3", [], [("IntA", []), ("L", ["str"])], {"own": "float"}),
+                                             ("D4", ["V"], [("IntA", []), ("L", ["V"])], {"v": "Optional[V]"})],
+                                 "queries": ["C3", "D4[bool]", "D4[Decimal]"]},
+        # a plain `class G(C)` of a generic C leaves C bare: C's variables get their implicit parameters, C's own bindings
+        # of ITS parents (and its overriding annotations) stay in force
+        "plain_child_of_generic": {"classes": [("A", ["T"], [], {"a": "T", "b": "T"}),
+                                               ("C2", ["U"], [("A", ["int"])], {"a": "List[U]"}),
+                                               ("G", [], [("C2", [])], {}),
+                                               ("GN", [], [("C2", [])], {"own": "str"}),
+                                               ("H", [], [("A", [])], {}),
+                                               ("C2S", [], [("C2", ["str"])], {}),
+                                               ("X", [], [("C2S", [])], {})],
+                                   "queries": ["G", "GN", "H", "X", "C2S"]},
+        # the same resolver serves every model kind; TypedDict merges the parents' annotations into its own
+        "td_simple": {"kind": "typeddict", "classes": [("A", ["T"], [], {"x": "T", "xs": "List[T]"}),
+                                                       ("B", ["U"], [("A", ["U"])], {"own": "Dict[str, U]"}),
+                                                       ("IntA", [], [("A", ["int"])], {"extra": "str"})],
+                      "queries": ["A[int]", "A[Decimal]", "B[str]", "IntA"]},
+        "td_shadowing": {"kind": "typeddict", "classes": [("A", ["T"], [], {"x": "T", "y": "T"}),
+                                                          ("B", ["U"], [("A", ["int"])], {"x": "List[U]"})],
+                         "queries": ["B[Decimal]"]},
         "two_bases": {"classes": [("A", ["T"], [], {"a": "T"}), ("M", ["U"], [], {"m": "U"}),
                                   ("B", ["T", "U"], [("A", ["T"]), ("M", ["U"])], {"own": "Dict[T, U]"})],
                       "queries": ["B[int, str]", "B[str, float]"]},
@@ -1749,6 +1796,11 @@ def generics_family(tier, seed):
             if params:
                 bl.append(f"Generic[{', '.join(params)}]")
             body = "\n".join(f"    {f}: {t}" for f, t in fields.items()) or "    pass"
+            if spec.get("kind") == "typeddict":
+                if not bases:
+                    bl.insert(0, "TypedDict")
+                src += f"class {name}({', '.join(bl)}):\n{body}\n"
+                continue
             src += f"@dataclass\nclass {name}" + (f"({', '.join(bl)})" if bl else "") + f":\n{body}\n"
         _KIND_COUNTER[0] += 1
         mod = types.ModuleType(f"generics_family_{_KIND_COUNTER[0]}")
